@@ -118,6 +118,52 @@ def monitor(space, tr, part, opts):
 
 
 # ---------------------------------------------------------------------------------------------
+# (a'') two-sided constant bounds: the shapes range-narrowing tactics look for
+# ---------------------------------------------------------------------------------------------
+
+
+def _bounds_job(w):
+    """And / Or of two comparisons of one variable with constants (every operator pair, every pair of constants, both
+    operand orders): top-level conjuncts that bound a variable from both sides"""
+    part = Part()
+    space = exprspace.Space(w)
+    x = space.bvs[0]
+    cmps = [("SLE", claripy.SLE), ("SLT", claripy.SLT), ("ULE", claripy.ULE), ("ULT", claripy.ULT), ("SGE", claripy.SGE), ("UGT", claripy.UGT)]
+    consts = range(1 << w)
+    for (n1, f1), (n2, f2) in itertools.product(cmps, cmps):
+        for c1 in consts:
+            for c2 in consts:
+                a = f1(claripy.BVV(c1, w), x)
+                b = f2(x, claripy.BVV(c2, w))
+                for cn, conn in (("And", claripy.And), ("Or", claripy.Or)):
+                    r = conn(a, b)
+                    if not r.symbolic:
+                        continue
+                    case = f"w={w}|bounds|{cn}({n1}({c1},x),{n2}(x,{c2}))"
+                    try:
+                        exp = space.den(r)
+                    except DenError:
+                        continue
+                    for name, f in (("claripy.simplify", claripy.simplify), ("z3.simplify", claripy.backends.z3.simplify)):
+                        part.count("transitions")
+                        part.count("bounds_simplify_calls")
+                        try:
+                            q = f(r)
+                        except Exception as e:  # noqa: BLE001
+                            part.fail(f"{name}:raised:{type(e).__name__}:bounds", f"{case}|{name}", {"expr": show(r), "error": str(e)[:160]})
+                            continue
+                        try:
+                            got = space.den(q)
+                        except DenError as e:
+                            part.fail(f"{name}:uninterpretable:bounds", f"{case}|{name}", {"expr": show(r), "simplified": show(q), "error": str(e)[:120]})
+                            continue
+                        if got != exp:
+                            i = next(k for k, (u, v) in enumerate(zip(exp, got)) if u != v)
+                            part.fail(f"{name}:wrong:bounds", f"{case}|{name}", {"expr": show(r), "simplified": show(q), "env": space.scope.env(i), "expected": exp[i], "got": got[i]})
+    return part.dump()
+
+
+# ---------------------------------------------------------------------------------------------
 # (a') FP expressions
 # ---------------------------------------------------------------------------------------------
 
@@ -491,7 +537,7 @@ def run(tier: str) -> int:
         "model_checking",
         rule="(a) every distinct symbolic E1 state through claripy.simplify (twice) and backends.z3.simplify: truth table "
         "unchanged, no exception; FP expression family through the same, compared by Z3 ground evaluation over the FP "
-        "alphabet; (b) every BV/Bool Z3 declaration kind buildable through the z3 API x operand shapes abstracted by "
+        "alphabet; And / Or of two constant bounds on one variable (all operator and constant pairs) through the same; (b) every BV/Bool Z3 declaration kind buildable through the z3 API x operand shapes abstracted by "
         "backends.z3._abstract and compared with ground evaluation of the Z3 term under every assignment; (c) every "
         "constraint list of <= 2 (3) constraints x pre-query (incl. query-then-add: later constraints still queued) on five frontend classes: model set unchanged by simplify()",
     )
@@ -504,6 +550,8 @@ def run(tier: str) -> int:
     exprspace.run_e1(rep, "mc.checks.c09:monitor", cfgs)
     emitted = set(rep.extra.get("emitted_decl_kinds", set()))
     for res in pmap(_fp_job, ["FLOAT", "DOUBLE"]):
+        rep.merge(res)
+    for res in pmap(_bounds_job, [2, 3] if tier == "quick" else [2, 3, 4]):
         rep.merge(res)
     parts = []
     for res in pmap(_reverse_job, widths):
